@@ -19,6 +19,7 @@ import (
 	"context"
 	"errors"
 	"fmt"
+	"io"
 	"reflect"
 	"runtime"
 	"strconv"
@@ -40,6 +41,7 @@ import (
 	"go.opentelemetry.io/collector/pdata/pprofile"
 	"go.opentelemetry.io/collector/pdata/ptrace"
 	"go.opentelemetry.io/collector/processor/memorylimiterprocessor/internal/metadata"
+	"go.opentelemetry.io/collector/processor/processorhelper"
 	"go.opentelemetry.io/collector/processor/processortest"
 )
 
@@ -156,9 +158,18 @@ type vProcs struct {
 	conc   bool
 }
 
+// vNewFactory builds the package's factory without naming the type of its cache (NewFactory hides the
+// *factory behind closures; the map is made by reflection so that a change of its key type still builds).
+func vNewFactory() *factory {
+	f := &factory{}
+	fv := reflect.ValueOf(f).Elem().FieldByName("memoryLimiters")
+	reflect.NewAt(fv.Type(), unsafe.Pointer(fv.UnsafeAddr())).Elem().Set(reflect.MakeMap(fv.Type()))
+	return f
+}
+
 // vNewProcs builds the four processors over one config; nil if the limiter cannot be built.
 func vNewProcs(cfg *Config, totalOK bool, total uint64, concurrent bool) *vProcs {
-	p := &vProcs{f: &factory{memoryLimiters: map[component.Config]*memoryLimiterProcessor{}}, cfg: cfg, sinks: &vSinks{}, conc: concurrent}
+	p := &vProcs{f: vNewFactory(), cfg: cfg, sinks: &vSinks{}, conc: concurrent}
 	savedGet, savedRead := memorylimiter.GetMemoryFn, memorylimiter.ReadMemStatsFn
 	defer func() { memorylimiter.GetMemoryFn, memorylimiter.ReadMemStatsFn = savedGet, savedRead }()
 	memorylimiter.GetMemoryFn = func() (uint64, error) {
@@ -215,10 +226,11 @@ func vNewProcs(cfg *Config, totalOK bool, total uint64, concurrent bool) *vProcs
 	}
 	p.tr, p.me, p.lo, p.pr = t, m, l, pr
 	p.comps = []component.Component{t, m, l, pr}
-	if len(p.f.memoryLimiters) != 1 {
-		panic("verif: the four processors do not share one limiter")
+	mlp, err := p.f.getMemoryLimiter(set, cfg) // a cache hit: the limiter the processors above were given
+	if err != nil {
+		panic(err)
 	}
-	p.ml = p.f.memoryLimiters[cfg].memlimiter
+	p.ml = mlp.memlimiter
 	vField(p.ml, "runGCFn").Set(reflect.ValueOf(func() { p.gcs++ }))
 	return p
 }
@@ -283,22 +295,41 @@ func vGenGateConfig(r *vRand) (*Config, bool, uint64) {
 }
 
 func vErrTerm(err error, downs []error) (string, string) {
-	switch {
-	case err == nil:
+	if err == nil {
 		return "None", "nil"
-	case errors.Is(err, memorylimiter.ErrDataRefused):
-		return "(Some ErrDataRefused)", "refused"
 	}
-	for k, d := range downs {
+	for k, d := range downs { // identity first: downstream may itself answer with the refusal sentinel
 		if err == d {
 			return fmt.Sprintf("(Some (ErrDown %s))", vZ(int64(k))), "down"
 		}
 	}
+	if errors.Is(err, memorylimiter.ErrDataRefused) {
+		return "(Some ErrDataRefused)", "refused"
+	}
 	return "(Some (ErrDown (-1)%Z))", "other"
 }
 
+// what the next consumer may answer: plain, permanent, context errors (deadline AND cancellation, bare and
+// wrapped), joined errors, the helper's own skip sentinel and the limiter's own sentinels coming from BELOW
+func vDownErrors() []error {
+	return []error{
+		errors.New("down-0"),
+		consumererror.NewPermanent(errors.New("down-1")),
+		context.DeadlineExceeded,
+		fmt.Errorf("down-3: %w", memorylimiter.ErrShutdownNotStarted),
+		context.Canceled,
+		fmt.Errorf("down-5: %w", context.Canceled),
+		consumererror.NewPermanent(context.Canceled),
+		errors.Join(errors.New("down-7a"), context.DeadlineExceeded),
+		processorhelper.ErrSkipProcessingData,
+		fmt.Errorf("down-9: %w", processorhelper.ErrSkipProcessingData),
+		fmt.Errorf("down-10: %w", memorylimiter.ErrDataRefused), // a limiter further down refuses: still downstream's result
+		io.EOF,
+	}
+}
+
 func vGateCases(out *vOut, r *vRand, n int) {
-	downs := []error{errors.New("down-0"), consumererror.NewPermanent(errors.New("down-1")), context.DeadlineExceeded, fmt.Errorf("down-3: %w", memorylimiter.ErrShutdownNotStarted)}
+	downs := vDownErrors()
 	for i := 0; i < n; i++ {
 		cfg, totalOK, total := vGenGateConfig(r)
 		p := vNewProcs(cfg, totalOK, total, false)
@@ -509,7 +540,7 @@ func vShareCases(out *vOut, r *vRand, n int) {
 	savedGet := memorylimiter.GetMemoryFn
 	defer func() { memorylimiter.GetMemoryFn = savedGet }()
 	for i := 0; i < n; i++ {
-		f := &factory{memoryLimiters: map[component.Config]*memoryLimiterProcessor{}}
+		f := vNewFactory()
 		ncfg := 1 + r.Intn(4)
 		cfgs := make([]*Config, ncfg)
 		for k := range cfgs {
@@ -520,6 +551,7 @@ func vShareCases(out *vOut, r *vRand, n int) {
 			}
 		}
 		seen := map[*memoryLimiterProcessor]int{}
+		all := map[*memoryLimiterProcessor]bool{}
 		byCfg := map[int]*memoryLimiterProcessor{}
 		ncalls := 2 + r.Intn(9)
 		var calls, obs []string
@@ -552,12 +584,16 @@ func vShareCases(out *vOut, r *vRand, n int) {
 			if err != nil {
 				obs = append(obs, "None")
 				out.Stat("share.create_failed", 1)
-				if _, cached := f.memoryLimiters[cfgs[k]]; cached || ok {
+				if _, cached := byCfg[k]; cached || ok {
 					out.Oracle("limiter-sharing", vList(calls), fmt.Sprintf("create failed: cached=%v constructible=%v", cached, ok))
 				}
 				continue
 			}
-			mlp := f.memoryLimiters[cfgs[k]]
+			mlp, lerr := f.getMemoryLimiter(set, cfgs[k]) // cache hit: the limiter just handed out for this config
+			if lerr != nil {
+				panic(lerr)
+			}
+			all[mlp] = true
 			if _, have := seen[mlp]; !have {
 				seen[mlp] = len(seen)
 				out.Stat("share.limiter_created", 1)
@@ -576,7 +612,7 @@ func vShareCases(out *vOut, r *vRand, n int) {
 			}
 			byCfg[k] = mlp
 		}
-		for _, mlp := range f.memoryLimiters {
+		for mlp := range all {
 			vField(mlp.memlimiter, "ticker").Interface().(*time.Ticker).Stop()
 		}
 		out.Case(len(seen) > 0, fmt.Sprintf("(CShare %s %s)", vList(calls), vList(obs)))
